@@ -218,7 +218,9 @@ func NewSvcEngine(cfg SvcConfig, store *h.SimStorage, cr cron.Cronner) (*SvcEngi
 	}
 	// NewSystem publishes the default control process-wide; keep it quiet
 	core.SystemParameters.DefaultControl = ctl
-	s.VerifSetStorage(store)
+	if store != nil {
+		s.VerifSetStorage(store)
+	} // else: the System makes its own (memory) storage at its first request
 	e := &SvcEngine{Cfg: cfg, Store: store, Cron: cr, Sys: s}
 	e.Svc = &service.Service{System: s}
 	e.HTTP, _ = service.NewHTTPService(h.NewCtx(h.Prot{}), e.Svc)
